@@ -958,7 +958,13 @@ def expand_aliases(fn: ast.FunctionDef) -> ast.FunctionDef:
 def normalize(repo: Repo, ci: Optional[ClassInfo], fn: ast.FunctionDef, sf: Optional[SourceFile] = None, aliases: bool = False, **kw) -> ast.FunctionDef:
     """flatten, then unroll (and, on request, expand attribute-chain aliases): the form in which rules read a function."""
     out = unroll(flatten(repo, ci, fn, sf, **kw), repo, ci)
-    return expand_aliases(out) if aliases else out
+    if aliases:
+        for _ in range(3):          # project = self.object; modules = project.modules
+            nxt = expand_aliases(out)
+            if ast.dump(nxt) == ast.dump(out):
+                break
+            out = nxt
+    return out
 
 
 # ------------------------------------------------------------------------------------ attribution of private helpers
